@@ -1238,7 +1238,16 @@ impl<'a> Iterator for TLVSequenceTLVIter<'a> {
     type Item = Result<TLV<'a>, Error>;
 
     fn next(&mut self) -> Option<Self::Item> {
-        self.try_next().transpose()
+        let result = self.try_next();
+
+        if result.is_err() {
+            // A malformed element cannot be skipped: report the error once and end the
+            // iteration, rather than reporting the same error forever
+            self.seq = TLVSequence::EMPTY;
+            self.nesting = 0;
+        }
+
+        result.transpose()
     }
 }
 
@@ -1264,9 +1273,18 @@ impl<'a> Iterator for TLVSequenceIter<'a> {
     type Item = Result<TLVElement<'a>, Error>;
 
     fn next(&mut self) -> Option<Self::Item> {
-        self.0
+        let result = self
+            .0
             .current()
-            .and_then(|current| self.advance().map(|_| current))
+            .and_then(|current| self.advance().map(|_| current));
+
+        if result.is_err() {
+            // A malformed element cannot be skipped: report the error once and end the
+            // iteration, rather than reporting the same error forever
+            self.0 = TLVSequence::EMPTY;
+        }
+
+        result
             .map(|elem| (!elem.is_empty()).then_some(elem))
             .transpose()
     }
